@@ -25,6 +25,7 @@ import (
 	"verif/env"
 	"verif/ref/wire"
 	"verif/report"
+	"verif/shim/vatomic"
 	"verif/shim/vrand"
 )
 
@@ -374,6 +375,14 @@ type c11Case struct {
 func c11Check(w *bWorld, history []int, all bool, probes []c11Probe) (viol []report.Violation, modelKey, implKey string, picks int64) {
 	sys := newC11Sys(w)
 	defer sys.close()
+	// every routing snapshot ever published must keep the fingerprint it was published with
+	type pub struct {
+		snap any
+		fp   string
+	}
+	published := []pub{{sys.mux.VerifSnapshot(), larking.VerifFingerprint(sys.mux.VerifSnapshot())}}
+	vatomic.StoreHook = func(v any) { published = append(published, pub{v, larking.VerifFingerprint(v)}) }
+	defer func() { vatomic.StoreHook = nil }()
 	ref := newRefRegistry()
 	mk := func(oracle, note string, step int) {
 		var ops []string
@@ -405,6 +414,12 @@ func c11Check(w *bWorld, history []int, all bool, probes []c11Probe) (viol []rep
 		}
 		if op == opDropUnknown && sys.fingerprint() != before {
 			mk("drop-unknown-changed-state", "snapshot fingerprint changed", step)
+		}
+		for i, p := range published {
+			if now := larking.VerifFingerprint(p.snap); now != p.fp {
+				mk("published-snapshot-mutated", fmt.Sprintf("snapshot #%d (published before %s) was modified in place:\n was %s\n now %s", i, opNames[op], truncS(p.fp, 500), truncS(now, 500)), step)
+				break
+			}
 		}
 		// probes × every handler pick
 		for _, pr := range probes {
